@@ -1,6 +1,6 @@
 (** C03: rebuilding a view state in place yields the DOM of a fresh render of the new value. *)
 From Coq Require Import List NArith Bool Arith Lia Permutation.
-From LV Require Import Dom.Dom Dom.DomProofs Dom.Keyed Dom.KeyedProofs Dom.View.
+From LV Require Import Dom.Dom Dom.DomProofs Dom.Keyed Dom.KeyedLemmas Dom.KeyedProofs Dom.KeyedTop Dom.View.
 Import ListNotations.
 
 (* ------------------------------------------------------------- rendered content, id-free *)
@@ -53,7 +53,8 @@ Fixpoint okv (v : view) : Prop :=
   | VEither _ _ c | VOpt (Some c) => okv c
   | VVec l => (fix all l := match l with [] => True | x :: r => okv x /\ all r end) l
   | VStatic _ => False
-  | VKeyed _ => False        (* keyed lists: see C11; not yet part of this induction *)
+  | VKeyed items => NoDup (map fst items) /\
+                    (fix all (l : list (N * view)) := match l with [] => True | kv :: r => okv (snd kv) /\ all r end) items
   end.
 
 Fixpoint all_okv (l : list view) : Prop := match l with [] => True | x :: r => okv x /\ all_okv r end.
@@ -65,6 +66,13 @@ Lemma okv_tuple : forall a l, okv (VTuple a l) <-> l <> [] /\ all_okv l.
 Proof. intros. cbn [okv]. rewrite all_okv_fix. tauto. Qed.
 Lemma okv_vec : forall l, okv (VVec l) <-> all_okv l.
 Proof. intros. cbn [okv]. apply all_okv_fix. Qed.
+Lemma okv_keyed : forall items, okv (VKeyed items) <-> NoDup (map fst items) /\ all_okv (map snd items).
+Proof.
+  intros. cbn [okv]. assert (forall l : list (N * view),
+    (fix all (l : list (N * view)) := match l with [] => True | kv :: r => okv (snd kv) /\ all r end) l
+    <-> all_okv (map snd l)) as H by (induction l; simpl; tauto).
+  rewrite H. tauto.
+Qed.
 
 (** states of that fragment, with every id below [n]: each element holds exactly the nodes
     of its child state, and its DOM attributes are those of the value last rendered *)
@@ -77,7 +85,9 @@ Fixpoint good (n : N) (s : st) : Prop :=
   | SEither _ _ c | SOptSome c => good n c
   | SVec l mk => (mk < n)%N /\ (fix all l := match l with [] => True | x :: r => good n x /\ all r end) l
   | SStatic _ _ => False
-  | SKeyed _ _ _ => False
+  | SKeyed rows mk _ =>
+      (mk < n)%N /\ NoDup (map (fun r => fst (fst r)) rows) /\
+      (fix all (l : list (N * nat * st)) := match l with [] => True | x :: r => good n (snd x) /\ all r end) rows
   end.
 Fixpoint all_good (n : N) (l : list st) : Prop := match l with [] => True | x :: r => good n x /\ all_good n r end.
 
@@ -88,6 +98,14 @@ Lemma good_tuple : forall n a l, good n (STuple a l) <-> l <> [] /\ all_good n l
 Proof. intros. cbn [good]. rewrite all_good_fix. tauto. Qed.
 Lemma good_vec : forall n l mk, good n (SVec l mk) <-> (mk < n)%N /\ all_good n l.
 Proof. intros. cbn [good]. rewrite all_good_fix. tauto. Qed.
+Lemma good_keyed : forall n rows mk g, good n (SKeyed rows mk g) <->
+  (mk < n)%N /\ NoDup (map (fun r => fst (fst r)) rows) /\ all_good n (map snd rows).
+Proof.
+  intros. cbn [good]. assert (forall l : list (N * nat * st),
+    (fix all (l : list (N * nat * st)) := match l with [] => True | x :: r => good n (snd x) /\ all r end) l
+    <-> all_good n (map snd l)) as H by (induction l; simpl; tauto).
+  rewrite H. tauto.
+Qed.
 
 (** induction on views, with the hypothesis for every member of a list *)
 Lemma view_ind' : forall P : view -> Prop,
@@ -131,7 +149,9 @@ Proof.
   - destruct H as [H1 H2]. split; [lia|]. clear H1. induction l as [|x l IHl]; auto. destruct H2 as [A B].
     split; [eapply IH; eauto | apply IHl; exact B].
   - exact H.
-  - exact H.
+  - destruct H as [H1 [H2 H3]]. split; [lia|]. split; [auto|]. clear H1 H2.
+    induction rows as [|x l IHl]; auto. destruct H3 as [A B].
+    split; [eapply IH; eauto | apply IHl; exact B].
 Qed.
 
 Lemma all_good_mono : forall l n m, (n <= m)%N -> all_good n l -> all_good m l.
@@ -153,7 +173,9 @@ Proof.
     induction l as [|y l IHl]; simpl in *; [contradiction|]. destruct H.
     apply in_app_or in Hx. destruct Hx; eauto.
   - contradiction.
-  - contradiction.
+  - destruct H as [Hm [_ H]]. apply in_app_or in Hx. destruct Hx as [Hx|[<-|[]]]; auto.
+    induction rows as [|y l IHl]; simpl in *; [contradiction|]. destruct H.
+    apply in_app_or in Hx. destruct Hx; eauto.
 Qed.
 
 (** a good state always owns at least one top-level node *)
@@ -166,7 +188,7 @@ Proof.
   - eauto.
   - destruct (flat_map ids l); discriminate.
   - contradiction.
-  - contradiction.
+  - destruct (flat_map (fun r => ids (snd r)) rows); discriminate.
 Qed.
 
 (* -------------------------------------------------------------- blocks of fresh nodes *)
@@ -234,7 +256,8 @@ Proof.
   - destruct H as [_ H]. f_equal. induction l as [|x l IHl]; simpl; auto. destruct H as [A B].
     rewrite (IH x n A), IHl; auto.
   - contradiction.
-  - contradiction.
+  - destruct H as [_ [_ H]]. f_equal. induction rows as [|x l IHl]; simpl; auto. destruct H as [A B].
+    rewrite (IH (snd x) n A), IHl; auto. destruct x; reflexivity.
 Qed.
 
 (** [insert_before_this] of a good state whose nodes are all children of the parent puts
@@ -260,7 +283,12 @@ Proof.
       { intros y Hy. apply Hin. simpl. apply in_or_app. left. apply in_or_app. left. auto. }
       exists a, ((rest ++ flat_map ids l) ++ [mk]). simpl. rewrite E, Ea. split; auto.
   - contradiction.
-  - contradiction.
+  - destruct H as [Hm [_ H]]. destruct rows as [|x l].
+    + simpl. exists mk, []. split; auto.
+      assert (memN mk dom = true) as -> by (apply memN_In; apply Hin; left; auto). auto.
+    + destruct H as [Hx _]. destruct (IH (snd x) n dom Hx) as [a [rest [E Ea]]].
+      { intros y Hy. apply Hin. simpl. apply in_or_app. left. apply in_or_app. left. auto. }
+      exists a, ((rest ++ flat_map (fun r => ids (snd r)) l) ++ [mk]). simpl. rewrite E, Ea. split; auto.
 Qed.
 
 (* ---------------------------------------------------------------------------- build *)
@@ -332,6 +360,32 @@ Proof.
     + eapply NoDup_app_ranges; eauto. intros; eapply good_ids_lt; eauto.
 Qed.
 
+Fixpoint build_rows (l : list (N * view)) (g : nat) (nx : N) : list (N * nat * st) * N :=
+  match l with
+  | [] => ([], nx)
+  | (k, x) :: r => let '(s, n1) := build x nx in
+                   let '(rest, n2) := build_rows r (S g) n1 in ((k, g, s) :: rest, n2)
+  end.
+
+Lemma build_keyed : forall items nx,
+  build (VKeyed items) nx
+  = let '(rows, nx1) := build_rows items 0 nx in (SKeyed rows nx1 (length items), (nx1 + 1)%N).
+Proof. intros. reflexivity. Qed.
+
+Lemma build_rows_list : forall l g n rows n', build_rows l g n = (rows, n') ->
+  build_list (map snd l) n = (map snd rows, n') /\ map (fun r => fst (fst r)) rows = map fst l.
+Proof.
+  induction l as [|[k x] l IH]; intros g n rows n' E.
+  - simpl in E. inversion E. auto.
+  - cbn [build_rows] in E. cbn [map snd build_list].
+    destruct (build x n) as [s n1]. destruct (build_rows l (S g) n1) as [rest n2] eqn:Er.
+    inversion E. subst. destruct (IH _ _ _ _ Er) as [I1 I2]. rewrite I1. cbn [map snd fst]. rewrite I2. auto.
+Qed.
+
+Lemma flat_map_map : forall {A B C} (f : B -> list C) (g : A -> B) l,
+  flat_map f (map g l) = flat_map (fun x => f (g x)) l.
+Proof. induction l; simpl; congruence. Qed.
+
 Lemma build_ok : forall v, build_spec v.
 Proof.
   apply view_ind'; unfold build_spec.
@@ -367,7 +421,20 @@ Proof.
     + intros x Hx. apply in_app_or in Hx. destruct Hx as [Hx|[<-|[]]]; [|lia]. specialize (Lo x Hx). lia.
     + apply NoDup_snoc; auto. intro Hc. specialize (Lo n Hc). lia.
   - intros l _ [].
-  - intros items _ [].
+  - intros items HF Hok n s n' E. apply (proj1 (okv_keyed _)) in Hok. destruct Hok as [Hnk Hok].
+    rewrite build_keyed in E. destruct (build_rows items 0 n) as [rows n1] eqn:Er. inversion E. subst. clear E.
+    destruct (build_rows_list _ _ _ _ _ Er) as [El Ek].
+    assert (Forall build_spec (map snd items)) as HF'.
+    { rewrite Forall_forall in *. intros v Hv. apply in_map_iff in Hv. destruct Hv as [kv [Ev Hkv]].
+      subst v. unfold build_spec. exact (HF kv Hkv). }
+    destruct (build_list_ok _ HF' Hok _ _ _ El) as [G [C [Le [Lo [Nd Len]]]]].
+    rewrite !flat_map_map in *. rewrite good_keyed. cbn [cs cv ids]. rewrite Ek.
+    repeat split; auto; try lia.
+    + eapply all_good_mono; [|exact G]. lia.
+    + rewrite C. reflexivity.
+    + intros x Hx. apply in_app_or in Hx. destruct Hx as [Hx|[<-|[]]]; [auto|lia].
+    + apply NoDup_snoc; auto. intro Hc.
+      assert (n1 < n1)%N; [|lia]. eapply all_good_ids_lt; [exact G|]. rewrite flat_map_map. exact Hc.
 Qed.
 
 (* --------------------------------------------------------------------- attributes *)
@@ -414,6 +481,9 @@ Fixpoint compat (v : view) (s : st) {struct v} : Prop :=
   | VOpt (Some c), SOptSome cs0 => compat c cs0
   | VVec l, SVec ss _ =>
       (fix go l ss := match l, ss with x :: r, s :: sr => compat x s /\ go r sr | _, _ => True end) l ss
+  | VKeyed items, SKeyed rows _ _ =>
+      (* a retained row is not rebuilt: it must already show what its (new) item view shows *)
+      forall kv r, In kv items -> In r rows -> fst kv = fst (fst r) -> cs (snd r) = cv (snd kv)
   | _, _ => True
   end.
 
@@ -767,6 +837,8 @@ Lemma compat_same : forall v s, tcode_eqb (tc_view v) (tc_st s) = true ->
   | VEither _ r c, SEither _ r0 cs0 => if Nat.eqb r r0 then compat c cs0 else True
   | VOpt (Some c), SOptSome cs0 => compat c cs0
   | VVec l, SVec ss _ => compat_list l ss
+  | VKeyed items, SKeyed rows _ _ =>
+      forall kv r, In kv items -> In r rows -> fst kv = fst (fst r) -> cs (snd r) = cv (snd kv)
   | _, _ => True
   end.
 Proof.
@@ -795,6 +867,143 @@ Lemma rebuild_vec_fill_eq : forall l mk w,
                         ([], {| r_dom := r_dom w; r_next := nx; r_panic := r_panic w |}) in
     (SVec ns' mk, w').
 Proof. intros. cbn [rebuild_any tc_view tc_st tcode_eqb negb]. reflexivity. Qed.
+
+(* ---------------------------------------------------------------------- keyed lists *)
+
+Definition view_of (items : list (N * view)) (k : N) : view :=
+  match find (fun kv => N.eqb (fst kv) k) items with Some kv => snd kv | None => VUnit end.
+Definition view_bld (items : list (N * view)) : builder :=
+  fun k nx => let '(c, nx') := build (view_of items k) nx in (ids c, nx').
+Definition item_of (r : N * nat * st) : item :=
+  {| it_key := fst (fst r); it_gen := snd (fst r); it_nodes := ids (snd r) |}.
+
+(** the states of the rows after the update *)
+Definition rows_of (items : list (N * view)) (rows : list (N * nat * st))
+  : list item -> N -> list (N * nat * st) :=
+  fix go (its : list item) (nx : N) :=
+  match its with
+  | [] => []
+  | it :: r =>
+      match find (fun r0 => N.eqb (fst (fst r0)) (it_key it)) rows with
+      | Some r0 => (it_key it, it_gen it, snd r0) :: go r nx
+      | None => let '(c, nx') := build (view_of items (it_key it)) nx in
+                (it_key it, it_gen it, c) :: go r nx'
+      end
+  end.
+
+Lemma rows_of_cons : forall items rows it r nx,
+  rows_of items rows (it :: r) nx =
+  match find (fun r0 => N.eqb (fst (fst r0)) (it_key it)) rows with
+  | Some r0 => (it_key it, it_gen it, snd r0) :: rows_of items rows r nx
+  | None => let '(c, nx') := build (view_of items (it_key it)) nx in
+            (it_key it, it_gen it, c) :: rows_of items rows r nx'
+  end.
+Proof. reflexivity. Qed.
+
+Lemma rebuild_keyed_eq : forall items rows mk g0 w,
+  rebuild_any (VKeyed items) (SKeyed rows mk g0) w =
+  let kst := {| ks_bld := view_bld items; ks_dom := r_dom w; ks_marker := mk;
+                ks_keys := map (fun r => fst (fst r)) rows; ks_items := map item_of rows;
+                ks_next := r_next w; ks_gen := g0 |} in
+  let '(kst', _, p) := Keyed.rebuild kst (map fst items) in
+  (SKeyed (rows_of items rows (ks_items kst') (r_next w)) mk (ks_gen kst'),
+   {| r_dom := ks_dom kst'; r_next := ks_next kst'; r_panic := r_panic w || p |}).
+Proof. intros. cbn [rebuild_any tc_view tc_st tcode_eqb negb]. reflexivity. Qed.
+
+Lemma all_okv_in : forall l v, all_okv l -> In v l -> okv v.
+Proof. induction l; simpl; intros v H Hv; [contradiction|]. destruct H. destruct Hv; subst; auto. Qed.
+
+Lemma all_good_in' : forall n l x, all_good n l -> In x l -> good n x.
+Proof. induction l; simpl; intros x H Hx; [contradiction|]. destruct H. destruct Hx; subst; auto. Qed.
+
+Lemma view_of_okv : forall items k, all_okv (map snd items) -> okv (view_of items k).
+Proof.
+  intros items k H. unfold view_of. destruct (find _ items) as [kv|] eqn:E; [|exact I].
+  apply find_some in E. destruct E as [E _]. eapply all_okv_in; eauto. apply in_map. auto.
+Qed.
+
+Lemma view_of_in : forall items kv, NoDup (map fst items) -> In kv items -> view_of items (fst kv) = snd kv.
+Proof.
+  induction items as [|x items IH]; intros kv Hnd Hin; [contradiction|].
+  unfold view_of. cbn [find]. cbn [map] in Hnd. inversion Hnd; subst. destruct Hin as [E|Hin].
+  - subst. rewrite N.eqb_refl. reflexivity.
+  - destruct (N.eqb_spec (fst x) (fst kv)) as [E|E].
+    + exfalso. apply H1. rewrite E. apply in_map. auto.
+    + apply IH; auto.
+Qed.
+
+Lemma view_bld_ok : forall items, all_okv (map snd items) -> bld_ok (view_bld items).
+Proof.
+  intros items Hok k nx. unfold view_bld. destruct (build (view_of items k) nx) as [c nx'] eqn:E.
+  destruct (build_ok _ (view_of_okv items k Hok) _ _ _ E) as [G [C [Le [Lo Nd]]]]. cbn [fst snd].
+  split; [eapply good_ids_nonempty; eauto|]. split; [exact Nd|].
+  intros n Hn. split; [auto|eapply good_ids_lt; eauto].
+Qed.
+
+Lemma flat_map_ext_in' : forall {A B} (f g : A -> list B) l,
+  (forall x, In x l -> f x = g x) -> flat_map f l = flat_map g l.
+Proof.
+  induction l as [|x l IH]; intros H; [reflexivity|]. cbn [flat_map]. rewrite H by (left; auto).
+  rewrite IH; auto. intros; apply H; right; auto.
+Qed.
+
+Lemma find_item_rows : forall rows k,
+  find_item k (map item_of rows) = option_map item_of (find (fun r0 => N.eqb (fst (fst r0)) k) rows).
+Proof.
+  induction rows as [|r rows IH]; intros k; [reflexivity|].
+  unfold find_item in *. cbn [map find item_of it_key]. destruct (N.eqb (fst (fst r)) k); [reflexivity|apply IH].
+Qed.
+
+Lemma rows_assemble : forall items rows,
+  all_okv (map snd items) ->
+  forall to nx g,
+  all_good nx (map snd rows) ->
+  (forall r, In r rows -> In (fst (fst r)) to -> cs (snd r) = cv (view_of items (fst (fst r)))) ->
+  let newk := filter (fun k => negb (memN k (map it_key (map item_of rows)))) to in
+  let its := assemble to (map item_of rows) (build_items (view_bld items) newk nx g) in
+  let rows' := rows_of items rows its nx in
+  map item_of rows' = its /\
+  all_good (build_next (view_bld items) newk nx) (map snd rows') /\
+  flat_map (fun r => cs (snd r)) rows' = flat_map (fun k => cv (view_of items k)) to /\
+  (nx <= build_next (view_bld items) newk nx)%N.
+Proof.
+  intros items rows Hok. pose proof (view_bld_ok items Hok) as Hb.
+  induction to as [|k to IH]; intros nx g Hg Hcs; cbv zeta.
+  - simpl. repeat split; auto. lia.
+  - cbn [assemble filter]. rewrite find_item_rows.
+    destruct (find (fun r0 => N.eqb (fst (fst r0)) k) rows) as [r0|] eqn:Ef; cbn [option_map].
+    + (* retained row *)
+      pose proof (find_some _ _ Ef) as [Hin Hk]. apply N.eqb_eq in Hk.
+      assert (memN k (map it_key (map item_of rows)) = true) as Hm.
+      { apply memN_In. rewrite <- Hk. change (fst (fst r0)) with (it_key (item_of r0)).
+        apply in_map. apply in_map. exact Hin. }
+      rewrite Hm. cbn [negb]. rewrite rows_of_cons. cbn [item_of it_key it_gen]. rewrite Hk, Ef.
+      destruct (IH nx g Hg) as [I1 [I2 [I3 I4]]].
+      { intros r Hr Hrk. apply Hcs; auto. right. auto. }
+      cbv zeta in *. cbn [map flat_map snd]. repeat split; auto.
+      * f_equal; auto. unfold item_of. cbn [fst snd]. rewrite Hk. reflexivity.
+      * eapply good_mono; [exact I4|]. eapply all_good_in'; [exact Hg|]. apply in_map. auto.
+      * f_equal; auto. rewrite <- Hk. apply Hcs; auto. left. auto.
+    + (* new row *)
+      assert (memN k (map it_key (map item_of rows)) = false) as Hm.
+      { apply memN_false. intro Hc. apply in_map_iff in Hc. destruct Hc as [it [Ek Hit]].
+        apply in_map_iff in Hit. destruct Hit as [r [Er Hr]]. subst it.
+        eapply find_none in Ef; eauto. cbn [item_of it_key] in Ek. cbn beta in Ef. rewrite Ek, N.eqb_refl in Ef.
+        discriminate. }
+      destruct (build (view_of items k) nx) as [c nx'] eqn:Eb.
+      assert (view_bld items k nx = (ids c, nx')) as Evb by (unfold view_bld; rewrite Eb; reflexivity).
+      rewrite Hm. cbn [negb build_items build_next]. rewrite rows_of_cons. cbn [it_key it_gen]. rewrite Ef, Eb, Evb.
+      cbn [fst snd].
+      destruct (build_ok _ (view_of_okv items k Hok) _ _ _ Eb) as [G [C [Le [Lo Nd]]]].
+      destruct (IH nx' (S g)) as [I1 [I2 [I3 I4]]].
+      { eapply all_good_mono; eauto. }
+      { intros r Hr Hrk. apply Hcs; auto. right. auto. }
+      cbv zeta in *. cbn [map flat_map snd]. repeat split; auto.
+      * f_equal; auto.
+      * eapply good_mono; eauto.
+      * f_equal; auto.
+      * lia.
+Qed.
 
 Theorem rebuild_any_ok : forall v, rb_spec v.
 Proof.
@@ -958,5 +1167,64 @@ Proof.
         unfold post_ok. cbn [ids cs cv]. rewrite good_vec. rewrite <- !app_assoc. cbn [app].
         repeat split; auto; try lia; try (rewrite C1; reflexivity).
   - intros l _ [].
-  - intros items _ [].
+  - (* keyed list: C11's theorem about the list, the item views as builder *)
+    intros items _ Hok s pre post w Hcp Hg Hp Hd Hnd Hb s' w' E.
+    destruct (tcode_eqb (tc_view (VKeyed items)) (tc_st s)) eqn:Etc.
+    2:{ rewrite rebuild_any_diff in E by auto. eapply replace_with_ok; eauto. }
+    rewrite compat_same in Hcp by auto.
+    destruct s as [| | | | | | | | |rows mk g0]; try discriminate.
+    apply (proj1 (okv_keyed _)) in Hok. destruct Hok as [Hnk Hokl].
+    apply (proj1 (good_keyed _ _ _ _)) in Hg. destruct Hg as [Hmk [Hnr Hgl]].
+    cbn [ids] in Hd, Hnd. rewrite <- app_assoc in Hd, Hnd. cbn [app] in Hd, Hnd.
+    rewrite rebuild_keyed_eq in E. cbv zeta in E.
+    set (kst := {| ks_bld := view_bld items; ks_dom := r_dom w; ks_marker := mk;
+                   ks_keys := map (fun r => fst (fst r)) rows; ks_items := map item_of rows;
+                   ks_next := r_next w; ks_gen := g0 |}) in E.
+    assert (flat_map it_nodes (map item_of rows) = flat_map (fun r => ids (snd r)) rows) as Hfl
+      by (rewrite flat_map_map; reflexivity).
+    assert (map it_key (map item_of rows) = map (fun r => fst (fst r)) rows) as Hkeys
+      by (rewrite map_map; reflexivity).
+    assert (st_wf pre post kst) as Hwf.
+    { unfold st_wf, kst. cbn [ks_bld ks_items ks_keys ks_dom ks_marker ks_next].
+      split; [apply view_bld_ok; auto|]. split; [exact Hkeys|]. rewrite Hfl. split; [exact Hd|].
+      constructor.
+      - rewrite Hkeys. exact Hnr.
+      - rewrite Hfl. exact Hnd.
+      - intros it Hit. apply in_map_iff in Hit. destruct Hit as [r [<- Hr]]. cbn [item_of it_nodes].
+        eapply good_ids_nonempty. eapply all_good_in'; [exact Hgl|]. apply in_map. exact Hr.
+      - rewrite Hfl. intros n Hn. rewrite !in_app_iff in Hn. cbn [In] in Hn. destruct Hn as [Hn|[Hn|[Hn|Hn]]].
+        + apply Hb. apply in_or_app. auto.
+        + eapply all_good_ids_lt; [exact Hgl|]. rewrite flat_map_map. exact Hn.
+        + subst. exact Hmk.
+        + apply Hb. apply in_or_app. auto. }
+    pose proof (keyed_rebuild_ok pre post kst (map fst items) Hwf Hnk) as Hok'.
+    pose proof (rebuild_items pre post kst (map fst items) Hwf Hnk) as Hit.
+    unfold keyed_ok in Hok'. destruct (Keyed.rebuild kst (map fst items)) as [[kst' log] p] eqn:Er.
+    destruct Hok' as [Ep [Hdom' [Hkeys' [_ [_ [_ [_ [_ [_ [_ Hwf']]]]]]]]]].
+    destruct Hit as [Hits [Hnext Hgen]].
+    inversion E. subst s' w'. clear E.
+    assert (forall r, In r rows -> In (fst (fst r)) (map fst items) ->
+              cs (snd r) = cv (view_of items (fst (fst r)))) as Hcs.
+    { intros r Hr Hk. apply in_map_iff in Hk. destruct Hk as [kv [Ek Hkv]].
+      rewrite <- Ek. rewrite (view_of_in items kv Hnk Hkv). apply Hcp; auto. }
+    pose proof (rows_assemble items rows Hokl (map fst items) (r_next w) g0 Hgl Hcs) as R. cbv zeta in R.
+    unfold new_items, newkeys in Hits, Hnext. cbn [kst ks_bld ks_items ks_next ks_gen ks_marker] in Hits, Hnext, Hdom'.
+    rewrite <- Hits in R. destruct R as [R1 [R2 [R3 R4]]]. rewrite <- Hnext in R2, R4.
+    set (rows' := rows_of items rows (ks_items kst') (r_next w)) in *.
+    assert (flat_map it_nodes (ks_items kst') = flat_map (fun r => ids (snd r)) rows') as Hfl'.
+    { rewrite <- R1. rewrite flat_map_map. reflexivity. }
+    unfold post_ok. cbn [r_panic r_dom r_next ids cs cv]. rewrite good_keyed.
+    rewrite <- app_assoc. cbn [app]. rewrite <- Hfl'.
+    split; [rewrite Hp, Ep; reflexivity|]. split; [exact Hdom'|].
+    split; [|split; [|split; [exact R4|]]].
+    + split; [lia|]. split; [|exact R2].
+      replace (map (fun r => fst (fst r)) rows') with (map it_key (ks_items kst')).
+      * rewrite Hkeys'. exact Hnk.
+      * rewrite <- R1. rewrite map_map. reflexivity.
+    + rewrite R3. rewrite flat_map_map. f_equal. apply flat_map_ext_in'. intros kv Hkv.
+      rewrite (view_of_in items kv Hnk Hkv). reflexivity.
+    + destruct Hwf' as [_ [_ [_ W]]]. cbn [ks_marker kst] in *.
+      assert (ks_marker kst' = mk) as Em.
+      { unfold Keyed.rebuild in Er. inversion Er. reflexivity. }
+      rewrite Em in W. exact (wf_dom _ _ _ _ _ W).
 Qed.
